@@ -310,11 +310,18 @@ func VerifC15KeyedSort() {
 	a := make([]any, l)
 	keys := make([]int, l)
 	has := make([]bool, l)
+	typed := nd.Choice(2) == 1 // elements are map[string]int instead of map[string]any
 	for i := range a {
 		if nd.Bool() {
 			k := nd.Int()
-			a[i] = map[string]any{"k": k, "id": i}
+			if typed {
+				a[i] = map[string]int{"k": k, "id": i}
+			} else {
+				a[i] = map[string]any{"k": k, "id": i}
+			}
 			keys[i], has[i] = k, true
+		} else if typed {
+			a[i] = map[string]int{"id": i}
 		} else {
 			a[i] = map[string]any{"id": i}
 		}
@@ -329,8 +336,12 @@ func VerifC15KeyedSort() {
 	seenKeyed := false
 	prev := 0
 	for i := 0; i < l; i++ {
-		m := out[i].(map[string]any)
-		id := m["id"].(int)
+		id := 0
+		if typed {
+			id = out[i].(map[string]int)["id"]
+		} else {
+			id = out[i].(map[string]any)["id"].(int)
+		}
 		if has[id] {
 			if seenKeyed {
 				nd.Assert(prev <= keys[id], "keyed-sort-ascending")
@@ -369,4 +380,35 @@ func VerifC15Representations() {
 	v, err = fEval("m | first", map[string]any{"m": ms})
 	nd.Assert(err == nil && v.(int) == x, "mapslice-first-is-first-value")
 	nd.Reach("C15.representations")
+}
+
+var c15DiffFilters = []string{"join: ','", "reverse | join: ','", "sort | join: ','", "uniq | join: ','", "compact | join: ','", "concat: b | join: ','", "first", "last", "size", "sort | first", "reverse | last"}
+
+// VerifC15RepDiff: typed slices, fixed arrays, ranges and ordered maps give the same result
+// as the generic slice with the same contents, for every array filter.
+func VerifC15RepDiff() {
+	f := c15DiffFilters[nd.Choice(len(c15DiffFilters))]
+	lo := nd.IntIn(-3, 3)
+	x, y := nd.IntIn(-9, 9), nd.IntIn(-9, 9)
+	var canon, other any
+	switch nd.Choice(5) {
+	case 0:
+		canon, other = []any{x, y, lo}, []int{x, y, lo}
+	case 1:
+		canon, other = []any{x, y, lo}, [3]int{x, y, lo}
+	case 2:
+		canon, other = []any{lo, lo + 1, lo + 2}, values.NewRange(lo, lo+2)
+	case 3:
+		canon, other = []any{x, y}, yaml.MapSlice{{Key: "p", Value: x}, {Key: "q", Value: y}}
+	case 4:
+		canon, other = []any{"b", "a", "b"}, []string{"b", "a", "b"}
+	}
+	b := []any{7}
+	v1, e1 := fEval("a | "+f, map[string]any{"a": canon, "b": b})
+	v2, e2 := fEval("a | "+f, map[string]any{"a": other, "b": b})
+	nd.Assert((e1 == nil) == (e2 == nil), "representation-same-errorness")
+	if e1 == nil && e2 == nil {
+		nd.Assert(values.Equal(v1, v2), "representation-same-result")
+	}
+	nd.Reach("C15.repdiff")
 }
